@@ -36,6 +36,7 @@ pub fn setup(name: &str, tier_depth: usize, max_rewinds: u32, wall: f64) -> (cra
         },
         with_roots: false,
         with_client: false,
+        with_rewind_state: false,
         free_scans: true,
         segment_scans: false,
         max_run: if name == "mid" { 2 } else { usize::MAX },
